@@ -5,5 +5,6 @@ CONSTANTS
  CheckMode = "pubshare"
  MCCfgs <- Cfg3v2f
  MaxForge = 1
+ Combine = FALSE
 INVARIANTS I2_SenderBound
 CHECK_DEADLOCK FALSE
